@@ -170,6 +170,17 @@ var S = {a: [], b: [], c: []};
 			}
 		}
 	}
+	// toprim, dynamic methods: a fresh object per case
+	dyn := dynSpecs()
+	for si := range dyn {
+		spec := &dyn[si]
+		for ci := range primContexts {
+			pc := &primContexts[ci]
+			c := &conv.Ctx{}
+			v, th := pc.f(c, conv.ObjectOf(spec.model("a")), models["b"][plainIdx])
+			emit(pc.src, []string{"(0, eval)(" + ox.JSLit(spec.js("a")) + ")", ref("b", plainIdx)}, expected(v, th, c), "toprim "+spec.name+"|"+pc.name)
+		}
+	}
 	// order
 	var vals []int
 	for i, v := range V {
